@@ -1,3 +1,5 @@
 import PfVerif.Audit.Tool
 import PfVerif.Props.C12
+import PfVerif.Lemmas.C12Session
 #audit_module PfVerif.Props.C12
+#audit_module_ns PfVerif.Lemmas.C12Session PfVerif.C12Session
